@@ -20,7 +20,7 @@ ASSUMPTIONS = ['operands are ints, floats and bools as the property says; Fracti
                '(Fraction ** Quantity takes its float path)',
                'shift counts and integer exponents are bounded (|x| <= 512) so results stay representable',
                'reflected three-argument pow is not generated (Python never dispatches it)',
-               'pint mode is off (hszinc.use_pint not exercised)']
+               'pint mode: the same rules are run under hszinc.use_pint(True) for units pint knows (m, km, W, kW, h, min) when pint is importable']
 FEATURES = {}
 EXHAUSTIVE_CLAIM = True
 
@@ -101,6 +101,21 @@ def nontrivial_operand(x):
 
 def check(case):
     """case = {'kind': 'bin'|'cmp'|'un'|'pow3', 'op': name, 'form': 'qn'|'nq'|'qq', 'v','u','x','u2','m'}"""
+    import hszinc
+    if case.get('pint'):
+        # the same rules under hszinc.use_pint(): Quantity(v, u) then builds the pint-backed class
+        hszinc.use_pint(True)
+        try:
+            return _check(dict((k, w) for k, w in case.items() if k != 'pint'))
+        except Violation as e:
+            e.case = case
+            raise
+        finally:
+            hszinc.use_pint(False)
+    return _check(case)
+
+
+def _check(case):
     import hszinc
     Q = hszinc.Quantity
     kind, op = case['kind'], case['op']
@@ -187,6 +202,54 @@ def enumerate_cases(shard, of):
                             yield {'kind': 'pow3', 'op': 'pow3', 'v': enc(v), 'u': u, 'x': enc(x), 'm': enc(m)}
 
 
+NEAR = [(1.0, 1.0000000000000002), (0.3, 0.1 + 0.2), (1e16, 1e16 + 2), (1e-9, 1.0000000001e-9), (100.0, 100.00000001),
+        (-2.5, -2.5000000000000004), (2 ** 53, 2 ** 53 + 1), (1e-300, 1.0000000000000002e-300), (5e-324, 1e-323),
+        (1e308, 1.0000000000000002e308), (0.0, 5e-324), (1, 1.0000000001), (123456789.0, 123456789.00000001), (7, 7.000000000000001)]
+PINT_UNITS = ['m', 'km', 'W', 'kW', 'h', 'min']
+
+
+def near_cases():
+    """numbers that differ in the last place or by 1e-10 relative: equality and ordering see the difference on the bare
+    values, so they must on Quantities (same unit) and against the bare value"""
+    for a, b in NEAR:
+        for v, x in ((a, b), (b, a), (a, a)):
+            for op in CMPOPS:
+                for u in ('m', None):
+                    for form in ('qn', 'nq'):
+                        yield {'kind': 'cmp', 'op': op, 'form': form, 'v': enc(v), 'u': u, 'x': enc(x)}
+                    yield {'kind': 'cmp', 'op': op, 'form': 'qq', 'v': enc(v), 'u': u, 'x': enc(x), 'u2': u}
+
+
+def pint_available():
+    try:
+        import pint      # noqa
+        return True
+    except Exception:      # noqa
+        return False
+
+
+def pint_cases():
+    vals = [0, 1, -1, 2, 7, 0.0, 0.5, -1.5, 3.0, 1000.0, 0.001, 60, 3600, float('inf'), float('nan')]
+    for v in vals:
+        for u in PINT_UNITS:
+            for op in UNOPS:
+                yield {'kind': 'un', 'op': op, 'v': enc(v), 'u': u, 'pint': True}
+            for x in vals:
+                for kind, table in (('cmp', CMPOPS), ('bin', BINOPS)):
+                    for op in table:
+                        if kind == 'bin' and u not in ('m', 'W'):
+                            continue
+                        for form in ('qn', 'nq'):
+                            yield {'kind': kind, 'op': op, 'form': form, 'v': enc(v), 'u': u, 'x': enc(x), 'pint': True}
+                        for u2 in PINT_UNITS:
+                            if kind == 'bin' and u2 not in ('m', 'km'):
+                                continue
+                            yield {'kind': kind, 'op': op, 'form': 'qq', 'v': enc(v), 'u': u, 'x': enc(x), 'u2': u2, 'pint': True}
+    for c in near_cases():
+        if c['u'] is not None:
+            yield dict(c, pint=True)
+
+
 def is_nontrivial(case, want):
     if want[0] == 'raises' or case.get('form') in ('nq', 'qq', 'self', 'qq-pickled'):
         return True
@@ -198,6 +261,8 @@ def plan(tier, seed, excl):
     t = [('catalogue', {'shard': i, 'of': 16}) for i in range(16)]
     n = 12000 if tier == 'quick' else 100000
     t += [('random', {'shard': i, 'n': n}) for i in range(8)]
+    t.append(('near', {}))
+    t += [('pint', {'shard': i, 'of': 4}) for i in range(4)]
     return t
 
 
@@ -218,6 +283,25 @@ def run(part, args, env):
             acc.labels[case['kind'] + ':' + case.get('form', '-')] += 1
         acc.bulk(n, nt)
         acc.exhaustive['operator x operand-pair x form x unit catalogue product (shard sum)'] = n
+    elif part in ('near', 'pint'):
+        if part == 'pint' and not pint_available():
+            acc.excluded['pint not installed: pint-mode cases skipped'] += 1
+            return acc
+        n = nt = 0
+        cases = near_cases() if part == 'near' else (c for i, c in enumerate(pint_cases()) if i % args['of'] == args['shard'])
+        for case in cases:
+            n += 1
+            try:
+                want = check(case)
+            except Violation as v:
+                acc.violation(v)
+                continue
+            nt += 1 if part == 'near' else is_nontrivial(case, want)
+            if n % 3000 == 1:
+                acc.sample(case)
+            acc.labels[part + ':' + case['kind'] + ':' + case.get('form', '-')] += 1
+        acc.bulk(n, nt)
+        acc.exhaustive['%s cases (shard)' % part] = n
     else:
         from hypothesis import strategies as st
         num = st.one_of(st.integers(-2 ** 70, 2 ** 70), st.integers(-20, 20), st.floats(allow_nan=True, allow_infinity=True),
